@@ -61,6 +61,19 @@ def generate(rng, tier, i):
             per = rng.choice([5, 10, 50])
             ops += [{'op': 'add', 'cb': cbx, 'period_ms': per, 'periodic': True, 'ctx': 'app', 'gap_ms': 0}, {'op': 'add', 'cb': cbx, 'period_ms': per, 'periodic': rng.random() < 0.5, 'ctx': 'app', 'gap_ms': 0},
                     {'op': 'remove', 'cb': cbx, 'ctx': 'app', 'gap_ms': rng.choice([0, 1, per])}]
+    if ncb > 1 and rng.random() < 0.12:
+        # two threads change registrations at the same time: a timer callback removes one entry while the application thread, parked at a
+        # source line inside its own call, removes another one (subscribers or timers); traffic / time follows
+        cx, cy = rng.sample(range(ncb), 2)
+        pre = {'k': rng.randint(1, 6), 'hold_us': rng.choice([3000, 5000, 60000])}
+        if rng.random() < 0.5:
+            ops += [{'op': 'sub', 'cb': cx, 'filter': None, 'ctx': 'app', 'gap_ms': 0}, {'op': 'sub', 'cb': cy, 'filter': None, 'ctx': 'app', 'gap_ms': 0},
+                    {'op': 'unsub', 'cb': cx, 'ctx': 'timer', 'gap_ms': 0}, {'op': 'unsub', 'cb': cy, 'ctx': 'app', 'gap_ms': 0, 'pre': pre},
+                    {'op': 'frame', 'da': 255, 'gap_ms': 10}]
+        else:
+            per = rng.choice([20, 50])
+            ops += [{'op': 'add', 'cb': cx, 'period_ms': per, 'periodic': True, 'ctx': 'app', 'gap_ms': 0}, {'op': 'add', 'cb': cy, 'period_ms': per, 'periodic': True, 'ctx': 'app', 'gap_ms': 0},
+                    {'op': 'remove', 'cb': cx, 'ctx': 'timer', 'gap_ms': 0}, {'op': 'remove', 'cb': cy, 'ctx': 'app', 'gap_ms': 0, 'pre': pre}]
     if ncb > 1 and rng.random() < 0.2:
         # a periodic callback that, in one invocation, removes another timer that falls due in the same pass and registers a new one
         per = rng.choice([5, 10, 50])
@@ -188,8 +201,9 @@ def execute(scn, keep_log=False, hook=None):
             lib(o, lambda: ecu.subscribe(sub_fn(o['cb']), flt))
             subs.setdefault(o['cb'], []).append(stamp())
         elif o['op'] == 'unsub':
+            u0 = stamp()
             lib(o, lambda: ecu.unsubscribe(sub_fn(o['cb'])))
-            unsub.setdefault(o['cb'], []).append(stamp())
+            unsub.setdefault(o['cb'], []).append(stamp() + (u0[1],))       # (time returned, tick returned, tick called)
         elif o['op'] == 'frame':
             injected.append(sim.now)
             if o['da'] == 255:
@@ -316,8 +330,8 @@ def execute(scn, keep_log=False, hook=None):
         if not ends:
             continue
         last_unsub = max(ends, key=lambda x: x[1])
-        if any(last_unsub[1] < x[1] < ctick for x in subs.get(cb, [])):
-            continue        # subscribed again after that unsubscribe
+        if any(last_unsub[2] < x[1] < ctick for x in subs.get(cb, [])):
+            continue        # subscribed again after that unsubscribe, or by a subscribe call that overlapped it (either order is possible then)
         viol.append({'clause': 'called-after-unsubscribe', 'rank': 2, 'feat': {'what': 'subscriber'},
                      'msg': 'subscriber %d called %.3f ms after unsubscribe returned' % (cb, (tc - last_unsub[0]) / 1e6)})
         break
